@@ -379,6 +379,11 @@ LONG_STRINGS = (
     'false', 'FALSE', 'False', 'true', 'TRUE', 'fa', 'FACE', 'no', '0x1F',
     # a line break is not a digit, wherever it stands
     '101\n', '1011010110\n', '\n101', '17\n', 'FF\n', '1\n0', '101\r\n',
+    # characters that Python's int() or case mappings turn into digits: the
+    # ff ligature (upper() gives FF), full-width and Arabic-Indic digits,
+    # full-width letters
+    '\ufb00', '\ufb00\ufb00', '1\ufb00', '\uff11\uff10', '\u0661\u0660',
+    '\uff21', '\uff41\uff11', '1\u0661',
 )
 FRACTIONS = (0.5, 1.5, 10.1, 101.5, 0.1, 1.01, 111.111, 7.7, 1e-3,
              # long digit strings with a small fraction
